@@ -3,63 +3,65 @@ C01: `ParseList(l.String())` / `ParseObject(o.String())` returns no error and a 
 `Equals` the original, with every element kind preserved, for every well-formed value tree
 (no bound on depth, width or string content) and every field order of every object.
 
-The only assumption is `FmtContract` (behaviour of Go's shortest float formatting, stated about
-the executable `serF`).
+No assumption about floating point is left: `FmtContract` (the serialiser's shortest formatting is read back as
+the identical float64) is the theorem `fmtContract_holds` (`Lemmas/FmtContractHolds.lean`: seventeen digits
+always suffice; the 'e' and 'f' layouts preserve the value).
 -/
 import Anytype.Lemmas.ParseTop
 import Anytype.Lemmas.EqualsRefl
+import Anytype.Lemmas.FmtContractHolds
 namespace Anytype
 
 /-! ### exact round trip -/
 
-theorem C01_roundtrip_list (hf : FmtContract) (xs : List JVal) (hw : (JVal.list xs).WF) :
+theorem C01_roundtrip_list (xs : List JVal) (hw : (JVal.list xs).WF) :
     parseListBytes (encode (ser (.list xs))) = .ok (.list xs) :=
-  RT.parseList_ser hf xs hw
+  RT.parseList_ser fmtContract_holds xs hw
 
-theorem C01_roundtrip_object (hf : FmtContract) (kvs : List (Str × JVal)) (hw : (JVal.obj kvs).WF) :
+theorem C01_roundtrip_object (kvs : List (Str × JVal)) (hw : (JVal.obj kvs).WF) :
     parseObjectBytes (encode (ser (.obj kvs))) = .ok (.obj kvs) :=
-  RT.parseObject_ser hf kvs hw
+  RT.parseObject_ser fmtContract_holds kvs hw
 
 /-- non-vacuity of `hw`: `sampleList` / `sampleFields` (`Lemmas/WF.lean`) are nested values with a
 string containing `"`, `\`, control characters, non-ASCII, U+FFFD and astral characters, extreme ints,
-negative zero, an empty object and an empty list.  (`hf` is the float-formatting assumption; spot
+negative zero, an empty object and an empty list.  (`fmtContract_holds` is the float-formatting assumption; spot
 checks of it are in `Lemmas/Contract.lean`.) -/
 example : (JVal.list sampleList).WF := sampleList_WF
 example : (JVal.obj sampleFields).WF := sampleFields_WF
-example (hf : FmtContract) : parseListBytes (encode (ser (.list sampleList))) = .ok (.list sampleList) :=
-  C01_roundtrip_list hf _ sampleList_WF
-example (hf : FmtContract) : parseObjectBytes (encode (ser (.obj sampleFields))) = .ok (.obj sampleFields) :=
-  C01_roundtrip_object hf _ sampleFields_WF
+example : parseListBytes (encode (ser (.list sampleList))) = .ok (.list sampleList) :=
+  C01_roundtrip_list _ sampleList_WF
+example : parseObjectBytes (encode (ser (.obj sampleFields))) = .ok (.obj sampleFields) :=
+  C01_roundtrip_object _ sampleFields_WF
 
 /-! ### the machine consumes the whole text -/
 
 /-- the root bracket is the first byte, and the machine started behind it stops exactly at the end
 of the text (nothing is left over), on the line it started on -/
-theorem C01_consumes_all_list (hf : FmtContract) (xs : List JVal) (hw : (JVal.list xs).WF) :
+theorem C01_consumes_all_list (xs : List JVal) (hw : (JVal.list xs).WF) :
     ∃ post, splitAtByte 0x5B (encode (ser (.list xs))) = some ([], post) ∧
       ∀ startLine, runList post startLine = .ok (.list xs) [] startLine :=
-  ⟨_, RT.split_list xs, RT.runList_ser hf xs hw⟩
+  ⟨_, RT.split_list xs, RT.runList_ser fmtContract_holds xs hw⟩
 
-theorem C01_consumes_all_object (hf : FmtContract) (kvs : List (Str × JVal)) (hw : (JVal.obj kvs).WF) :
+theorem C01_consumes_all_object (kvs : List (Str × JVal)) (hw : (JVal.obj kvs).WF) :
     ∃ post, splitAtByte 0x7B (encode (ser (.obj kvs))) = some ([], post) ∧
       ∀ startLine, runObject post startLine = .ok (.obj kvs) [] startLine :=
-  ⟨_, RT.split_obj kvs, RT.runObject_ser hf kvs hw⟩
+  ⟨_, RT.split_obj kvs, RT.runObject_ser fmtContract_holds kvs hw⟩
 
 example : (JVal.list sampleList).WF := sampleList_WF
 example : (JVal.obj sampleFields).WF := sampleFields_WF
 
 /-- the form used by the entry points: start line 1 -/
-theorem C01_consumes_all (hf : FmtContract) :
+theorem C01_consumes_all :
     (∀ xs, (JVal.list xs).WF → ∃ post l, splitAtByte 0x5B (encode (ser (.list xs))) = some ([], post) ∧
         runList post 1 = .ok (.list xs) [] l) ∧
     (∀ kvs, (JVal.obj kvs).WF → ∃ post l, splitAtByte 0x7B (encode (ser (.obj kvs))) = some ([], post) ∧
         runObject post 1 = .ok (.obj kvs) [] l) := by
   constructor
   · intro xs hw
-    obtain ⟨post, h1, h2⟩ := C01_consumes_all_list hf xs hw
+    obtain ⟨post, h1, h2⟩ := C01_consumes_all_list xs hw
     exact ⟨post, 1, h1, h2 1⟩
   · intro kvs hw
-    obtain ⟨post, h1, h2⟩ := C01_consumes_all_object hf kvs hw
+    obtain ⟨post, h1, h2⟩ := C01_consumes_all_object kvs hw
     exact ⟨post, 1, h1, h2 1⟩
 
 /-! ### `Equals`, kinds, second round trip -/
@@ -68,40 +70,40 @@ theorem C01_consumes_all (hf : FmtContract) :
 theorem C01_equals (v : JVal) (hw : v.WF) : equalsJ v v = true :=
   RT.equalsJ_refl v hw
 
-theorem C01_equals_roundtrip_list (hf : FmtContract) (xs : List JVal) (hw : (JVal.list xs).WF) :
+theorem C01_equals_roundtrip_list (xs : List JVal) (hw : (JVal.list xs).WF) :
     ∃ w, parseListBytes (encode (ser (.list xs))) = .ok w ∧
       equalsJ w (.list xs) = true ∧ equalsJ (.list xs) w = true :=
-  ⟨_, C01_roundtrip_list hf xs hw, C01_equals _ hw, C01_equals _ hw⟩
+  ⟨_, C01_roundtrip_list xs hw, C01_equals _ hw, C01_equals _ hw⟩
 
-theorem C01_equals_roundtrip_object (hf : FmtContract) (kvs : List (Str × JVal)) (hw : (JVal.obj kvs).WF) :
+theorem C01_equals_roundtrip_object (kvs : List (Str × JVal)) (hw : (JVal.obj kvs).WF) :
     ∃ w, parseObjectBytes (encode (ser (.obj kvs))) = .ok w ∧
       equalsJ w (.obj kvs) = true ∧ equalsJ (.obj kvs) w = true :=
-  ⟨_, C01_roundtrip_object hf kvs hw, C01_equals _ hw, C01_equals _ hw⟩
+  ⟨_, C01_roundtrip_object kvs hw, C01_equals _ hw, C01_equals _ hw⟩
 
 example : (JVal.list sampleList).WF ∧ (JVal.obj sampleFields).WF := ⟨sampleList_WF, sampleFields_WF⟩
 
 /-- every element comes back with the kind it had (float as float also when whole-valued or
 negative zero, int as int), at every depth -/
-theorem C01_kinds_list (hf : FmtContract) (xs : List JVal) (hw : (JVal.list xs).WF) :
+theorem C01_kinds_list (xs : List JVal) (hw : (JVal.list xs).WF) :
     ∃ w, parseListBytes (encode (ser (.list xs))) = .ok w ∧ kindTree w = kindTree (.list xs) :=
-  ⟨_, C01_roundtrip_list hf xs hw, rfl⟩
+  ⟨_, C01_roundtrip_list xs hw, rfl⟩
 
-theorem C01_kinds_object (hf : FmtContract) (kvs : List (Str × JVal)) (hw : (JVal.obj kvs).WF) :
+theorem C01_kinds_object (kvs : List (Str × JVal)) (hw : (JVal.obj kvs).WF) :
     ∃ w, parseObjectBytes (encode (ser (.obj kvs))) = .ok w ∧ kindTree w = kindTree (.obj kvs) :=
-  ⟨_, C01_roundtrip_object hf kvs hw, rfl⟩
+  ⟨_, C01_roundtrip_object kvs hw, rfl⟩
 
 example : (JVal.list sampleList).WF ∧ (JVal.obj sampleFields).WF := ⟨sampleList_WF, sampleFields_WF⟩
 
 /-- serialising the re-parsed container and parsing again yields the same container -/
-theorem C01_twice_list (hf : FmtContract) (xs : List JVal) (hw : (JVal.list xs).WF) :
+theorem C01_twice_list (xs : List JVal) (hw : (JVal.list xs).WF) :
     ∃ w, parseListBytes (encode (ser (.list xs))) = .ok w ∧
       parseListBytes (encode (ser w)) = .ok w ∧ equalsJ w (.list xs) = true :=
-  ⟨_, C01_roundtrip_list hf xs hw, C01_roundtrip_list hf xs hw, C01_equals _ hw⟩
+  ⟨_, C01_roundtrip_list xs hw, C01_roundtrip_list xs hw, C01_equals _ hw⟩
 
-theorem C01_twice_object (hf : FmtContract) (kvs : List (Str × JVal)) (hw : (JVal.obj kvs).WF) :
+theorem C01_twice_object (kvs : List (Str × JVal)) (hw : (JVal.obj kvs).WF) :
     ∃ w, parseObjectBytes (encode (ser (.obj kvs))) = .ok w ∧
       parseObjectBytes (encode (ser w)) = .ok w ∧ equalsJ w (.obj kvs) = true :=
-  ⟨_, C01_roundtrip_object hf kvs hw, C01_roundtrip_object hf kvs hw, C01_equals _ hw⟩
+  ⟨_, C01_roundtrip_object kvs hw, C01_roundtrip_object kvs hw, C01_equals _ hw⟩
 
 example : (JVal.list sampleList).WF ∧ (JVal.obj sampleFields).WF := ⟨sampleList_WF, sampleFields_WF⟩
 
